@@ -1,7 +1,7 @@
 (* C09 — periodic and Bloch domains match their supercells.  Model: model/Yee.v; proofs: proofs/Yee_tile.v (1-D ghost reads),
    proofs/Yee_tile3.v (3-D lift through curls, updates, masks, sources; induction over steps). *)
 From Coq Require Import List Arith QArith Qcanon.
-From FV Require Import base.Scalar base.Cplx model.Yee proofs.Yee_steps proofs.Yee_tile proofs.Yee_tile3.
+From FV Require Import base.Scalar base.Cplx model.Yee model.YeeFull proofs.Yee_steps proofs.Yee_tile proofs.Yee_tile3.
 Import ListNotations.
 
 (* Main theorem.  sc: any PML-free scene of the model (any halo kind per axis, widths, iso/diagonal materials, both
@@ -24,6 +24,23 @@ Theorem C09_supercell_forward : forall (K : Fld) (sc : scene K) (mx my mz : nat)
     tiles K sc mx my mz (iterT K (Tscene K sc mx my mz) n S) (iterT K sc n s).
 Proof. exact forward_tiles_n. Qed.
 Print Assumptions C09_supercell_forward.
+
+(* The same statement for the fully anisotropic lossless tiers (model/YeeFull.v): 9-component inverse permittivity and / or
+   permeability tensor fields (TT T = the tensor field repeated over the supercell), whose co-location averages reach across the
+   periodic / Bloch seam.  A tier given as None is the iso / diagonal tier. *)
+Theorem C09_supercell_forward_full_tensor : forall (K : Fld) (sc : scene K) (mx my mz : nat),
+  (0 < nx K sc)%nat -> (0 < ny K sc)%nat -> (0 < nz K sc)%nat ->
+  (mx = 1%nat \/ cmul (lox K sc) (hix K sc) = c1) ->
+  (my = 1%nat \/ cmul (loy K sc) (hiy K sc) = c1) ->
+  (mz = 1%nat \/ cmul (loz K sc) (hiz K sc) = c1) ->
+  (mx = 1%nat \/ wx K sc (nx K sc - 1)%nat = wx K sc O) ->
+  (my = 1%nat \/ wy K sc (ny K sc - 1)%nat = wy K sc O) ->
+  (mz = 1%nat \/ wz K sc (nz K sc - 1)%nat = wz K sc O) ->
+  pmls K sc = [] ->
+  forall (ie9 im9 : option (T9 K)) n S s, tiles K sc mx my mz S s ->
+    tiles K sc mx my mz (iterTF K (Tscene K sc mx my mz) (TTo K sc ie9) (TTo K sc im9) n S) (iterTF K sc ie9 im9 n s).
+Proof. exact forward_full_tiles_n. Qed.
+Print Assumptions C09_supercell_forward_full_tensor.
 
 (* the two 1-D ingredients (kept as separate statements: they are the only non-local part of the step) *)
 Theorem C09_forward_read_tiles : forall (K : Fld) (N m : nat) (phi : C K) (f : nat -> C K), (0 < N)%nat ->
